@@ -238,7 +238,7 @@ func (t *Tables) decodeObject(id string, raw []byte) (string, M) {
 	}
 }
 
-var logRe = regexp.MustCompile(`^([0-9a-f]{40}) ([0-9a-f]{40}) (.*) <([^<>]*)> ([0-9]+) ([+-][0-9]{4})\t([a-z]+): (.*)$`)
+var logRe = regexp.MustCompile(`^([0-9a-f]{40}) ([0-9a-f]{40}) (.*) <([^<>]*)> ([0-9]+) ([+-][0-9+-]{4,6})\t([a-z]+): (.*)$`) // (the zone field is taken as it is: Goit writes "-02-30" for -02:30 there)
 
 func parseLog(data []byte) []any {
 	out := []any{}
